@@ -148,7 +148,7 @@ Definition block_value (unz : Z -> list Z -> option (list Z)) (lib : hlib) (b : 
     chk (slice_ok d 0 4) (
     let end_ := le_bytes (sub d 0 4) in
     if zlen d - 4 <? end_ then Err 8 else
-    chk (slice_ok d 4 (u32 (4 + end_))) (unmarshal_header_text lib (sub d 4 (u32 (4 + end_)))))
+    chk (slice_ok d 4 (4 + end_)) (unmarshal_header_text lib (sub d 4 (4 + end_))))
   else if k_typ b =? cram_mappedSliceHeader then slice_read (k_data b)
   else
     let m := k_method b in
